@@ -30,6 +30,8 @@ REG = {
          "No signal source (C API offers none). Colour inside a fade accepted within <1 unit (+2^-10 float slack) of exact interpolation, as the property states. The timeline-refinement theorem is not proven; the model itself is the executable semantics the implementation is compared with."),
  "C09": ("Lean 4 theorems: a backward seek starts over from the rewound executor, a fresh player is exactly a rewound one, rewind re-establishes pc/loops/colour/pyro/transition/ended and arms the clock reset; plus the C02 invariants. PARTIAL: that a forward seek is a function of (program, t) up to the zero-duration latitude is decided by the correspondence run: one player driven through all orderings of probe sets with immediate repeats and random walks with back-jumps; each answer compared with a fresh player's (implementation vs itself) and with the model; differences accepted only where the fresh player still has zero-duration commands pending at t.",
          "See C02."),
+ "C11": ("Lean 4 theorems: the scan with early exit returns the first decoded entry whose cumulative time is at least t, else the last one (scanLoop_eq_pickFirst; decoding does not depend on t), an immediate landing for negative t or a plan without entries, the returned action is never 'same as previous' (resolved to the action in force), a cumulative time beyond 32 bits and a duration/delay above 2^24 s are overflow errors, points are stored int16 values times the scale. Correspondence (exact: all outputs are integers below 2^24, scaled int16 or float-rounded integers): generated plans over every action/flag combination, multi-byte and padded varints, cumulative times near 2^32, in/out-of-range point indices, damaged plans; evaluation at every cumulative time +-0.5/+-1, +-inf, NaN.",
+         "The field-by-field description of a well-formed entry (which fields follow which action) is the model's scanParams/scanTimes, tied by the correspondence run; NaN time behaves as 'later than every entry' (DESIGN.md 8.3)."),
 }
 
 checks = []
